@@ -30,12 +30,17 @@ func pattern(v absint.Value) (string, bool) {
 		return s, err == nil
 	case *absint.Term:
 		switch {
-		case t.Op == "+" && len(t.Args) == 2:
-			// string concatenation is normalised by key order: recover the source order is impossible in
-			// general, so concatenations are kept in evaluation order by the engine for strings (non-commutative)
-			a, ok1 := pattern(t.Args[0])
-			b, ok2 := pattern(t.Args[1])
-			return a + b, ok1 && ok2
+		case t.Op == "+" && len(t.Args) >= 2:
+			// string concatenation: the engine keeps the operands in evaluation order, as one flat term
+			out := ""
+			for _, a := range t.Args {
+				p, ok := pattern(a)
+				if !ok {
+					return "", false
+				}
+				out += p
+			}
+			return out, true
 		case t.Op == "call:fmt.Sprintf" && len(t.Args) >= 1:
 			return pattern(t.Args[0])
 		}
@@ -352,11 +357,13 @@ func cmpParts(lit *ast.FuncLit) (string, token.Token, string, bool) {
 func init() {
 	register(&Property{
 		ID:    "C15",
-		Rules: []string{"C15-R1", "C15-R2", "C15-R3", "C15-R4", "C15-R5", "C15-R6", "C15-R7"},
+		Rules: []string{"C15-R1", "C15-R2", "C15-R3", "C15-R4", "C15-R5", "C15-R6", "C15-R7", "C15-R8", "C15-R9"},
 		Explain: "Decides that presentation switches are wired so that they cannot change numbers: C15-R1 the templates selectable through the same option show the same set of fields; C15-R3 every shorten width equals the width of the column the name is printed in; C15-R2 every colouring function, over colour on/off x sign(value), renders positive red, negative green, zero and colour-off plain, and stripped of escape sequences every rendering equals the plain one (same verb, same width); " +
 			"C15-R4 at the register's expansion sites what goes into the day's accumulator does not depend on totals-only (the switches gate lines only); C15-R5 each descending comparator is the ascending one mirrored; " +
 			"C15-R6 presentation flags declared on several levels (no-color) are read through the context lineage so either position works; " +
-			"C15-R7 in every collapse mode a balance row shows the visited child's own Total and a subtree is skipped only where the mode joins it into the row.",
+			"C15-R7 in every collapse mode a balance row shows the visited child's own Total and a subtree is skipped only where the mode joins it into the row; " +
+			"C15-R8 the template path (GetReportItem) and the old reporter expand a logged food by the same rule, so choosing a template or the old reporter shows the same records; " +
+			"C15-R9 no package-level state (a template cache, a colour switch) is written while a command runs.",
 		NotDecided: "that two renderings contain the same digits, the interleaving claim, truncation arithmetic inside the truncate library",
 		Run: func(c *core.Ctx) {
 			ruleTemplates(c, "", "C15-R1", "C15-R3")
@@ -365,6 +372,8 @@ func init() {
 			ruleDescMirrors(c, "C15-R5")
 			ruleLineage(c, "C15-R6", func(n string) bool { return n != "begin" && n != "end" })
 			ruleTreePrinters(c, "C15-R7")
+			ruleExpansionSites(c, "C15-R8", func(fn *ssa.Function) bool { return inPkgs(fn, registerPkg, reporterPkg) })
+			ruleGlobalState(c, "C15-R9")
 		},
 	})
 }
